@@ -2,6 +2,7 @@ import RedactVerif.Proofs.Scan
 import RedactVerif.Proofs.Tokens
 import RedactVerif.Props.FactsConsts
 import RedactVerif.Props.TransMarkers
+import RedactVerif.Proofs.Canon
 /-
 C07 — Redact and StripMarkers are exact, idempotent projections.
 
@@ -293,6 +294,35 @@ example : WF (tokenize ([0x61] ++ startB ++ [0x62, 0x0A] ++ endB ++ [0x63])) := 
 example : redact ([0x61] ++ startB ++ [0x62, 0x0A] ++ endB ++ [0x63]) = [0x61] ++ redactedB ++ [0x63] := by decide
 example : redact (startB ++ [0x61] ++ startB ++ [0x62] ++ endB ++ endB) = startB ++ [0x61] ++ redactedB ++ endB := by decide
 
+/-! ### At the level of byte strings
+
+The theorems above are about token lists; the library's functions take and return byte strings
+(`redact l = untok (redactT (tokenize l))`). They compose on strings because the token reading of `Redact(l)` *is*
+`redactT (tokenize l)` (`tokenize_redact`, Proofs/Canon.lean: token readings are canonical and `redactT` keeps them
+so). `StripMarkers` does not have this property: that is known finding D4 (`strip_can_reassemble_marker`). -/
+
+/-- **Redact is idempotent on every byte string**, well-formed or not. -/
+theorem redact_idem (l : List Byte) : redact (redact l) = redact l := by
+  show untok (redactT (tokenize (redact l))) = untok (redactT (tokenize l))
+  rw [tokenize_redact, redactT_idem]
+
+/-- On a well-formed string the result of `Redact` is well-formed, has the same safe text and as many envelopes. -/
+theorem redact_wf (l : List Byte) (h : WF (tokenize l)) : WF (tokenize (redact l)) := by
+  rw [tokenize_redact]; exact redactT_wf _ h
+
+theorem redact_same_safe_text (l : List Byte) (h : WF (tokenize l)) :
+    outside false (tokenize (redact l)) = outside false (tokenize l) := by
+  rw [tokenize_redact]; exact redactT_same_safe_text _ h
+
+theorem redact_count (l : List Byte) (h : WF (tokenize l)) : countS (tokenize (redact l)) = countS (tokenize l) := by
+  rw [tokenize_redact]; exact redactT_count _ h
+
+/-- … and is exactly the string with every envelope's content replaced by the cross. -/
+theorem redact_exact (l : List Byte) (h : WF (tokenize l)) : tokenize (redact l) = blank false (tokenize l) := by
+  rw [tokenize_redact]; exact redactT_exact _ h
+
+example : redact (redact ([0xE2] ++ startB ++ [0x80, 0xB9] ++ endB)) = redact ([0xE2] ++ startB ++ [0x80, 0xB9] ++ endB) := redact_idem _
+
 /-! ### On the functions as the translator reads them off `internal/markers/markers.go` on every run
 (equality with the model: Props/TransMarkers.lean) -/
 
@@ -303,6 +333,10 @@ theorem translated_redact_tokens (s : List Byte) : Trans.MS_Redact s = untok (re
 /-- `StripMarkers()` removes exactly the delimiters of the token reading. -/
 theorem translated_strip_tokens (s : List Byte) : Trans.MS_StripMarkers s = untok ((tokenize s).filter (fun x => !x.isMarker)) := by
   rw [ms_stripMarkers, ← stripT_eq_filter]; rfl
+
+/-- `Redact()` as read off the source is idempotent on every string. -/
+theorem translated_redact_idem (s : List Byte) : Trans.MS_Redact (Trans.MS_Redact s) = Trans.MS_Redact s := by
+  simp only [ms_redact]; exact redact_idem s
 
 example : Trans.MS_Redact ([0x61] ++ startB ++ [0x62, 0x0A] ++ endB ++ [0x63]) = [0x61] ++ redactedB ++ [0x63] := by decide
 
